@@ -104,16 +104,17 @@ def _mk(cls, atoms, par, idmap):
     return cls(tuple(None if a is None else idmap[a] for a in atoms), par)
 
 
-def _init_worker(idmap):
+def _init_worker(idmap, idmap0=None):
     _G["cl"] = _classes()
     _G["idmap"] = idmap
+    _G["idmap0"] = idmap0 or idmap
 
 
 def _pair_block(args):
     """rows x cols ordered pairs within one family.  Returns (n_eval, n_equal_expected, failures)."""
-    cname, rows, cols = args
+    cname, rows, cols = args[:3]
     cls = _G["cl"][cname]
-    idmap = _G["idmap"]
+    idmap = _G["idmap0"] if len(args) > 3 and args[3] else _G["idmap"]
     robj = [(_mk(cls, r["atoms"], r["par"], idmap), r) for r in rows]
     cobj = [(_mk(cls, c["atoms"], c["par"], idmap), c) for c in cols]
     chash = []
@@ -156,6 +157,13 @@ def run(tier: str) -> int:
     # arbitrary concrete identifiers (spec is invariant under the choice)
     pool = rnd.sample(range(-50, 400), 9)
     idmap = {i + 1: pool[i] for i in range(9)}
+    # second spelling of the identifiers: the falsy identifier 0 and the "sentinel-like" -1 as LIGANDS (next to
+    # lone-pair placeholders they are what a careless `a or 0` / `-1 for None` confuses)
+    idmap0 = dict(idmap)
+    idmap0[2], idmap0[3] = 0, -1
+    for k in (1, 4, 5, 6, 7, 8, 9):
+        while idmap0[k] in (0, -1):
+            idmap0[k] = rnd.randrange(500, 900)
 
     n_tab, tabs = table_check(rep)
 
@@ -195,11 +203,13 @@ def run(tier: str) -> int:
                 rows = rnd.sample(fam, 300)
             for i in range(0, len(rows), 40):
                 jobs.append((n, rows[i:i + 40], fam))
+            rows0 = rows if len(rows) <= 60 else rnd.sample(rows, 60)
+            jobs.append((n, rows0, fam, True))
 
     n_pairs = 0
     n_equal = 0
     per_class = {n: 0 for n in CLASS_NAMES}
-    with mp.Pool(min(16, os.cpu_count() or 4), initializer=_init_worker, initargs=(idmap,)) as pool_:
+    with mp.Pool(min(16, os.cpu_count() or 4), initializer=_init_worker, initargs=(idmap, idmap0)) as pool_:
         for cname, n, neq, fails in pool_.imap_unordered(_pair_block, jobs, chunksize=1):
             n_pairs += n
             n_equal += neq
@@ -214,7 +224,7 @@ def run(tier: str) -> int:
                     sig = f"C04|{cname}|hash|equal-descriptors-different-hash|nph={nph}"
                     what = f"{cname}: equal descriptors have different hashes"
                 if r is not None:
-                    rep.violation(sig, what, {"x": r, "y": c, "idmap": idmap, "expected": exp, "got": got})
+                    rep.violation(sig, what, {"x": r, "y": c, "idmap": idmap, "idmap_with_0_and_minus1": idmap0, "expected": exp, "got": got})
                 else:
                     rep.violation(sig, what, {})
 
